@@ -21,6 +21,10 @@
 // from {0,1,2,2^31-1,2^31,2^32-2,2^32-1}, truncated at every offset, plus all short strings over a 6-byte
 // alphabet, are fed to marbl.Reader in worker subprocesses with an address-space cap: ReadFrame must
 // return the frames of the independent parser and then an error; never panic, never allocate gigabytes.
+//
+// audit.go (coverage audit, see AUDIT.md) adds to part 1 the spaces D, E, N, S, A2, W (failing writer), X (stream
+// closed early) and H (marbl.Handler with websocket subscribers behind the stream), to part 2 the family F5
+// (a subscriber connects / breaks while a message is logged) and to part 3 other kinds of sources.
 package main
 
 import (
@@ -149,7 +153,16 @@ func readAllFrames(b []byte, max int) (fs []marbl.Frame, last error, pan string,
 			pan = fmt.Sprint(r)
 		}
 	}()
-	rd := marbl.NewReader(bytes.NewReader(b))
+	return readAllFramesFrom(bytes.NewReader(b), max)
+}
+
+func readAllFramesFrom(src io.Reader, max int) (fs []marbl.Frame, last error, pan string, both bool) {
+	defer func() {
+		if r := recover(); r != nil {
+			pan = fmt.Sprint(r)
+		}
+	}()
+	rd := marbl.NewReader(src)
 	for len(fs) < max {
 		f, err := rd.ReadFrame()
 		if err != nil {
@@ -186,6 +199,7 @@ type hdrVariant struct {
 	Method, Remote                 string
 	Status                         int
 	StatusLine                     string
+	Proto, RProto                  string // request / response protocol ("" = HTTP/1.1 / HTTP/1.0)
 }
 
 var hdrVariants = func() []hdrVariant {
@@ -220,11 +234,18 @@ type bodySpec struct {
 	Combined bool `json:"combined,omitempty"` // the final chunk is returned together with the terminal error
 	ErrAt    int  `json:"err_at"`             // -1: EOF at Size; e: errBoom once offset e has been reached
 	CloseErr bool `json:"close_err,omitempty"`
+	// audit extensions
+	Chunk     int  `json:"chunk,omitempty"`     // the body returns at most this many bytes per Read (0: fills the buffer)
+	Stutter   int  `json:"stutter,omitempty"`   // every Stutter-th Read call makes no progress: (0, nil)
+	Transient bool `json:"transient,omitempty"` // the error at ErrAt is returned once, then the body continues to Size and EOF
+	Real      bool `json:"real,omitempty"`      // with NoBody: the message carries http.NoBody itself (not a recorder around it)
+	Nil       bool `json:"nil,omitempty"`       // the message has a nil Body (client-side requests; net/http treats it as empty)
 }
 
 type consSpec struct {
-	Bufs       []int `json:"bufs"`        // read-buffer sizes, cycled
-	CloseAfter int   `json:"close_after"` // -1: read until an error, then close; j: close after j reads
+	Bufs       []int `json:"bufs"`            // read-buffer sizes, cycled
+	CloseAfter int   `json:"close_after"`     // -1: read until an error, then close; j: close after j reads
+	After      int   `json:"after,omitempty"` // the consumer keeps reading until it has seen After+1 errors (0: stops at the first)
 }
 
 type msgSpec struct {
@@ -233,6 +254,7 @@ type msgSpec struct {
 	Hdr     int      `json:"hdr"`
 	ID      string   `json:"id,omitempty"`       // id handed to LogRequest/LogResponse (Stream API only)
 	SameReq bool     `json:"same_req,omitempty"` // response to the previous message's request (shares its context)
+	Skip    bool     `json:"skip,omitempty"`     // the context is marked SkipLogging before the Modifier sees the message
 	Body    bodySpec `json:"body"`
 	Cons    consSpec `json:"cons"`
 }
@@ -241,6 +263,26 @@ type rtCase struct {
 	Space string    `json:"space"`
 	Via   int       `json:"via"` // 0 Stream.LogRequest/LogResponse, 1 Modifier
 	Msgs  []msgSpec `json:"msgs"`
+	// audit extensions
+	W          *writerSpec `json:"w,omitempty"`           // the stream's writer fails
+	EarlyClose int         `json:"early_close,omitempty"` // k>0: Stream.Close is called after k-1 consumer steps, the consumers go on
+	LateLog    bool        `json:"late_log,omitempty"`    // with EarlyClose: messages 1.. are logged after the Close
+	Subs       []subSpec   `json:"subs,omitempty"`        // the writer is a tee into a marbl.Handler with these websocket subscribers
+}
+
+// writerSpec makes the recording writer fail: Write call number FailAt (0-based) returns an error, and so do
+// all later calls if Persistent. Short: the failing call reports a short write (half of the frame, io.ErrShortWrite).
+type writerSpec struct {
+	FailAt     int  `json:"fail_at"`
+	Persistent bool `json:"persistent,omitempty"`
+	Short      bool `json:"short,omitempty"`
+}
+
+// subSpec is one websocket subscriber of a marbl.Handler.
+type subSpec struct {
+	Stall     bool `json:"stall,omitempty"`      // the client does not read until all messages have been logged and consumed
+	FailAfter int  `json:"fail_after,omitempty"` // k>0: the connection breaks when the server sends its k-th message
+	Late      bool `json:"late,omitempty"`       // (concurrent scenarios) connects while messages are being logged
 }
 
 var (
@@ -255,16 +297,29 @@ func content(i int) byte {
 
 // scripted is the underlying body.
 type scripted struct {
-	spec bodySpec
-	off  int
+	spec    bodySpec
+	off     int
+	calls   int
+	errDone bool
+	eof     bool
 }
 
 func (s *scripted) Read(p []byte) (int, error) {
+	s.calls++
+	if s.eof {
+		return 0, io.EOF
+	}
+	if s.spec.Stutter > 1 && s.calls%s.spec.Stutter == 0 {
+		return 0, nil
+	}
 	limit, term := s.spec.Size, io.EOF
-	if s.spec.ErrAt >= 0 {
+	if s.spec.ErrAt >= 0 && !s.errDone {
 		limit, term = s.spec.ErrAt, errBoom
 	}
 	n := len(p)
+	if s.spec.Chunk > 0 && n > s.spec.Chunk {
+		n = s.spec.Chunk
+	}
 	if n > limit-s.off {
 		n = limit - s.off
 	}
@@ -273,6 +328,10 @@ func (s *scripted) Read(p []byte) (int, error) {
 	}
 	s.off += n
 	if s.off == limit && (s.spec.Combined || n == 0) {
+		if term == errBoom && s.spec.Transient {
+			s.errDone = true
+		}
+		s.eof = term == io.EOF
 		return n, term
 	}
 	return n, nil
@@ -316,13 +375,33 @@ func (r *recBody) Close() error {
 type recWriter struct {
 	writes [][]byte
 	point  bool // make Write a scheduling point (a slow writer)
+
+	fail     *writerSpec // audit: failing writer
+	calls    int
+	rejected int
+	next     io.Writer // audit: tee (the frame is then handed to a marbl.Handler)
 }
+
+var errWriter = errors.New("writer failed")
 
 func (w *recWriter) Write(p []byte) (int, error) {
 	if w.point {
 		vrt.Point("writer.Write")
 	}
+	k := w.calls
+	w.calls++
+	if f := w.fail; f != nil && (k == f.FailAt || f.Persistent && k > f.FailAt) {
+		w.rejected++
+		if f.Short {
+			w.writes = append(w.writes, append([]byte(nil), p[:len(p)/2]...))
+			return len(p) / 2, io.ErrShortWrite
+		}
+		return 0, errWriter
+	}
 	w.writes = append(w.writes, append([]byte(nil), p...))
+	if w.next != nil {
+		return w.next.Write(p)
+	}
 	return len(p), nil
 }
 
@@ -352,6 +431,14 @@ type msgObs struct {
 	closeErr error
 	nreads   int
 	done     bool
+
+	errsSeen     int  // errors the consumer has seen so far
+	readsPastEOF int  // reads made after the first io.EOF
+	late         bool // logged after Stream.Close
+	runaway      bool // the consumer gave up: reads never reached an error
+	ctxSkip      bool // the message's context is marked SkipLogging
+	skipped      bool // ... and it goes through the Modifier: nothing may be logged
+	logPanic     string
 }
 
 type observation struct {
@@ -359,6 +446,7 @@ type observation struct {
 	msgs     []*msgObs
 	closed   bool // Stream.Close returned (or the modifier's stream went quiescent)
 	finished bool
+	subs     []*wsConn // audit: websocket subscribers of the handler behind the tee
 }
 
 var baseTime = time.Unix(1700000000, 0)
@@ -372,6 +460,20 @@ func prepare(i int, sp msgSpec, prev *msgObs, removes *[]func()) *msgObs {
 		inner = http.NoBody
 	}
 	m.under = &recBody{inner: inner}
+	var body io.ReadCloser = m.under
+	switch {
+	case sp.Body.Nil:
+		body = nil
+	case sp.Body.NoBody && sp.Body.Real:
+		body = http.NoBody
+	}
+	proto, rproto := v.Proto, v.RProto
+	if proto == "" {
+		proto = "HTTP/1.1"
+	}
+	if rproto == "" {
+		rproto = "HTTP/1.0"
+	}
 	h := http.Header{}
 	for _, p := range v.Pairs {
 		h[p.Name] = append([]string{}, p.Values...)
@@ -387,7 +489,7 @@ func prepare(i int, sp msgSpec, prev *msgObs, removes *[]func()) *msgObs {
 		if err != nil {
 			panic(err)
 		}
-		req = &http.Request{Method: v.Method, URL: u, Proto: "HTTP/1.1", ProtoMajor: 1, ProtoMinor: 1, Header: http.Header{}, Host: v.Host, RemoteAddr: v.Remote, ContentLength: -1, Body: http.NoBody}
+		req = &http.Request{Method: v.Method, URL: u, Proto: proto, ProtoMajor: 1, ProtoMinor: 1, Header: http.Header{}, Host: v.Host, RemoteAddr: v.Remote, ContentLength: -1, Body: http.NoBody}
 		ctx, remove, err := martian.TestContext(req, nil, nil)
 		if err != nil {
 			panic(err)
@@ -397,6 +499,10 @@ func prepare(i int, sp msgSpec, prev *msgObs, removes *[]func()) *msgObs {
 			ctx.APIRequest()
 		}
 	}
+	m.ctxSkip = sp.Skip
+	if sp.SameReq && prev != nil && prev.ctxSkip {
+		m.ctxSkip = true
+	}
 	m.req = req
 	api := sp.API
 	if sp.SameReq && prev != nil {
@@ -404,17 +510,17 @@ func prepare(i int, sp msgSpec, prev *msgObs, removes *[]func()) *msgObs {
 	}
 	if sp.Kind == 0 {
 		m.mt = 1
-		req.Header, req.ContentLength, req.TransferEncoding, req.Body = h, v.CL, v.TE, m.under
+		req.Header, req.ContentLength, req.TransferEncoding, req.Body = h, v.CL, v.TE, body
 		m.pseudo = []kv{{":method", []string{v.Method}}, {":scheme", []string{v.Scheme}}, {":authority", []string{v.Authority}},
-			{":path", []string{v.Path}}, {":query", []string{v.Query}}, {":proto", []string{"HTTP/1.1"}}, {":remote", []string{v.Remote}}}
+			{":path", []string{v.Path}}, {":query", []string{v.Query}}, {":proto", []string{proto}}, {":remote", []string{v.Remote}}}
 		if v.Host != "" {
 			m.hdrs = append(m.hdrs, kv{"Host", []string{v.Host}})
 		}
 	} else {
 		m.mt = 2
-		m.res = &http.Response{Status: v.StatusLine, StatusCode: v.Status, Proto: "HTTP/1.0", ProtoMajor: 1, ProtoMinor: 0, Header: h,
-			ContentLength: v.CL, TransferEncoding: v.TE, Body: m.under, Request: req}
-		m.pseudo = []kv{{":proto", []string{"HTTP/1.0"}}, {":status", []string{strconv.Itoa(v.Status)}}, {":reason", []string{v.StatusLine}}}
+		m.res = &http.Response{Status: v.StatusLine, StatusCode: v.Status, Proto: rproto, ProtoMajor: 1, ProtoMinor: 0, Header: h,
+			ContentLength: v.CL, TransferEncoding: v.TE, Body: body, Request: req}
+		m.pseudo = []kv{{":proto", []string{rproto}}, {":status", []string{strconv.Itoa(v.Status)}}, {":reason", []string{v.StatusLine}}}
 	}
 	if api {
 		m.pseudo = append(m.pseudo, kv{":api", []string{"true"}})
@@ -437,6 +543,9 @@ func prepare(i int, sp msgSpec, prev *msgObs, removes *[]func()) *msgObs {
 func nowMillis() int64 { return vtime.Now().UnixNano() / 1000 / 1000 }
 
 func logMsg(st *marbl.Stream, mod *marbl.Modifier, m *msgObs) {
+	if m.spec.Skip {
+		martian.NewContext(m.req).SkipLogging()
+	}
 	m.tsLo = nowMillis()
 	switch {
 	case mod != nil && m.spec.Kind == 0:
@@ -463,6 +572,14 @@ func (m *msgObs) step(buf []byte) {
 		return
 	}
 	c := m.spec.Cons
+	if m.wrapper == nil { // a nil Body is an empty body: net/http neither reads nor closes it
+		m.done = true
+		return
+	}
+	if m.nreads > 8*m.spec.Body.Size+1000 { // the body never ends (it would otherwise exhaust memory): judged as a violation
+		m.runaway, m.done = true, true
+		return
+	}
 	if c.CloseAfter >= 0 && m.nreads >= c.CloseAfter {
 		m.closeErr = m.wrapper.Close()
 		m.closed, m.done = true, true
@@ -471,6 +588,9 @@ func (m *msgObs) step(buf []byte) {
 	p := buf[:c.Bufs[m.nreads%len(c.Bufs)]]
 	for i := range p {
 		p[i] = 0xAA
+	}
+	if m.sawEOF {
+		m.readsPastEOF++
 	}
 	n, err := m.wrapper.Read(p)
 	m.nreads++
@@ -485,8 +605,11 @@ func (m *msgObs) step(buf []byte) {
 		if err == io.EOF {
 			m.sawEOF = true
 		}
-		m.closeErr = m.wrapper.Close()
-		m.closed, m.done = true, true
+		m.errsSeen++
+		if m.errsSeen > c.After {
+			m.closeErr = m.wrapper.Close()
+			m.closed, m.done = true, true
+		}
 	}
 }
 
@@ -505,8 +628,11 @@ func maxBuf(msgs []msgSpec) int {
 // execRoundTrip is the body of one part-1 execution (single thread + the stream's writer goroutine).
 func execRoundTrip(c rtCase, obs *observation) {
 	vtime.SetBase(baseTime)
-	rec := &recWriter{}
+	rec := &recWriter{fail: c.W}
 	obs.rec = rec
+	if len(c.Subs) > 0 {
+		rec.next = connectSubscribers(c.Subs, obs)
+	}
 	var st *marbl.Stream
 	var mod *marbl.Modifier
 	if c.Via == 1 {
@@ -518,18 +644,34 @@ func execRoundTrip(c rtCase, obs *observation) {
 	var prev *msgObs
 	for i, sp := range c.Msgs {
 		m := prepare(i, sp, prev, &removes)
+		m.skipped = m.ctxSkip && mod != nil
 		obs.msgs = append(obs.msgs, m)
 		prev = m
 	}
-	for _, m := range obs.msgs {
+	for i, m := range obs.msgs {
+		if c.LateLog && i > 0 {
+			break
+		}
 		logMsg(st, mod, m)
 	}
 	buf := make([]byte, maxBuf(c.Msgs))
+	steps, streamClosed := 0, false
 	for {
+		if c.EarlyClose > 0 && !streamClosed && steps >= c.EarlyClose-1 {
+			st.Close()
+			streamClosed = true
+			for i, m := range obs.msgs {
+				if c.LateLog && i > 0 {
+					m.late = true
+					logMsg(st, mod, m)
+				}
+			}
+		}
 		active := false
 		for _, m := range obs.msgs {
 			if !m.done {
 				m.step(buf)
+				steps++
 				active = true
 			}
 		}
@@ -537,12 +679,17 @@ func execRoundTrip(c rtCase, obs *observation) {
 			break
 		}
 	}
-	if st != nil {
+	switch {
+	case streamClosed:
+	case st != nil:
 		st.Close()
-	} else {
+	default:
 		vrt.WaitQuiescent() // the modifier's stream cannot be closed: wait until its writer is idle
 	}
 	obs.closed = true
+	if len(c.Subs) > 0 {
+		releaseSubscribers(obs)
+	}
 	for _, r := range removes {
 		r()
 	}
@@ -557,7 +704,22 @@ type violSink func(symptom, desc string)
 
 // checkObservation compares what was written and what the consumers saw with the property statement.
 func checkObservation(obs *observation, add violSink) (nframes int, stateKeys []string, multiData int) {
-	writes := obs.rec.writes
+	return checkWrites(obs, obs.rec.writes, judge{wrapper: true}, add)
+}
+
+// judge selects what is judged. The zero value plus wrapper=true is the full oracle of the statement.
+type judge struct {
+	wrapper bool   // judge the transparency of the logging wrapper (once per execution)
+	mode    string // "": everything; "writer": the writer failed (only what survives a lossy writer is judged);
+	// "closed": the stream was closed before the consumers were done (the log is a prefix)
+}
+
+// checkWrites judges one sequence of Write calls (the stream's writer, or the messages one websocket
+// subscriber received).
+func checkWrites(obs *observation, writes [][]byte, j judge, add violSink) (nframes int, stateKeys []string, multiData int) {
+	if j.mode == "writer" {
+		return checkLossy(obs, writes, add)
+	}
 	var frames []frame
 	whole := true
 	for i, w := range writes {
@@ -623,12 +785,16 @@ func checkObservation(obs *observation, add violSink) (nframes int, stateKeys []
 	for _, m := range obs.msgs {
 		k := key{m.wireID, m.mt}
 		claimed[k] = true
-		nh, nd := checkMessage(m, groups[k], add)
+		nh, nd := checkMessage(m, groups[k], j, add)
 		if nd >= 2 {
 			multiData++
 		}
-		stateKeys = append(stateKeys, fmt.Sprintf("mt%d/h%s/d%s/eof=%v/err=%v/early=%v", m.mt, bucket(nh), bucket(nd), m.sawEOF,
-			len(m.reads) > 0 && m.reads[len(m.reads)-1].Err != nil && !m.sawEOF, m.spec.Cons.CloseAfter >= 0 && m.nreads == m.spec.Cons.CloseAfter))
+		key := fmt.Sprintf("mt%d/h%s/d%s/eof=%v/err=%v/early=%v", m.mt, bucket(nh), bucket(nd), m.sawEOF,
+			len(m.reads) > 0 && m.reads[len(m.reads)-1].Err != nil && !m.sawEOF, m.spec.Cons.CloseAfter >= 0 && m.nreads == m.spec.Cons.CloseAfter)
+		if m.readsPastEOF > 0 || m.errsSeen > 1 || m.skipped || m.late || m.spec.Body.Real || m.spec.Body.Nil || j.mode != "" {
+			key += fmt.Sprintf("/pastEOF=%v/errs=%s/skip=%v/late=%v/real=%v/nil=%v/%s", m.readsPastEOF > 0, bucket(m.errsSeen), m.skipped, m.late, m.spec.Body.Real, m.spec.Body.Nil, j.mode)
+		}
+		stateKeys = append(stateKeys, key)
 	}
 	for _, k := range order {
 		if !claimed[k] {
@@ -661,10 +827,20 @@ func minInt(a, b int) int {
 	return b
 }
 
-func checkMessage(m *msgObs, fs []frame, add violSink) (nh, nd int) {
+func checkMessage(m *msgObs, fs []frame, j judge, add violSink) (nh, nd int) {
 	who := fmt.Sprintf("%s(kind=%d id=%q)", m.label, m.spec.Kind, m.wireID)
 	if m.logErr != nil {
 		add("log_error", fmt.Sprintf("%s: logging returned %v", who, m.logErr))
+	}
+	if m.skipped {
+		// the context says "do not log": nothing of this message may reach the stream, the body stays as it is
+		if len(fs) > 0 {
+			add("skipped_message_logged", fmt.Sprintf("%s: the context is marked SkipLogging but %d frame(s) were logged (first: %v)", who, len(fs), fs[0]))
+		}
+		if j.wrapper {
+			checkWrapper(m, who, add)
+		}
+		return 0, 0
 	}
 	// ---- headers ----
 	gotVals := map[string][]string{}
@@ -681,7 +857,7 @@ func checkMessage(m *msgObs, fs []frame, add violSink) (nh, nd int) {
 		}
 		gotVals[f.Name] = append(gotVals[f.Name], f.Value)
 	}
-	if m.logged {
+	if m.logged && !m.late {
 		exp := map[string][]string{}
 		for _, p := range m.pseudo {
 			exp[p.Name] = p.Values
@@ -724,7 +900,80 @@ func checkMessage(m *msgObs, fs []frame, add violSink) (nh, nd int) {
 			add("pseudo_header_missing", fmt.Sprintf("%s: no :timestamp frame", who))
 		}
 	}
-	// ---- wrapper transparency ----
+	if j.wrapper {
+		checkWrapper(m, who, add)
+	}
+	// ---- data frames ----
+	nd = len(data)
+	var cat []byte
+	for i, f := range data {
+		if f.Index != uint32(i) {
+			add("data_index_not_contiguous", fmt.Sprintf("%s: data frame #%d in stream order carries index %d (indices: %v)", who, i, f.Index, indices(data)))
+			break
+		}
+	}
+	for i, f := range data {
+		cat = append(cat, f.Data...)
+		if f.Term > 1 {
+			add("terminal_byte_invalid", fmt.Sprintf("%s: data frame %d has terminal byte %d", who, i, f.Term))
+		}
+		if f.Term == 1 && i != len(data)-1 {
+			// a consumer that kept reading after io.EOF produces further frames: they can only be empty and terminal
+			ok := m.readsPastEOF > 0
+			for _, g := range data[i+1:] {
+				if g.Term != 1 || len(g.Data) != 0 {
+					ok = false
+				}
+			}
+			if !ok {
+				add("terminal_not_last", fmt.Sprintf("%s: data frame %d of %d is marked terminal", who, i, len(data)))
+				break
+			}
+		}
+	}
+	lastTerm := len(data) > 0 && data[len(data)-1].Term == 1
+	if j.mode == "closed" {
+		// the stream was closed while the body was still being read: the logged data is a prefix of what the consumer read
+		if !bytes.HasPrefix(m.got, cat) {
+			add("data_bytes_mismatch", fmt.Sprintf("%s: data frames concatenate to %d bytes which are no prefix of the %d bytes the consumer read (first difference at %d)", who, len(cat), len(m.got), firstDiff(cat, m.got)))
+		}
+		if lastTerm && (!m.sawEOF || len(cat) != len(m.got)) {
+			add("terminal_spurious", fmt.Sprintf("%s: the last data frame is terminal but the log holds %d of %d bytes (consumer saw EOF: %v)", who, len(cat), len(m.got), m.sawEOF))
+		}
+		return nh, nd
+	}
+	if !bytes.Equal(cat, m.got) {
+		add("data_bytes_mismatch", fmt.Sprintf("%s: data frames concatenate to %d bytes, the consumer read %d bytes (first difference at %d; %d frames, %d reads)", who, len(cat), len(m.got), firstDiff(cat, m.got), len(data), len(m.reads)))
+	}
+	if m.sawEOF && !lastTerm {
+		add("terminal_missing", fmt.Sprintf("%s: the body reached EOF but the last of %d data frame(s) is not terminal", who, len(data)))
+	}
+	// a body that is empty by construction (http.NoBody itself, nil) is at end-of-file whether or not anybody reads it
+	knownEmpty := (m.spec.Body.Real && m.spec.Body.NoBody || m.spec.Body.Nil) && len(m.reads) == 0
+	if !m.sawEOF && lastTerm && !knownEmpty {
+		add("terminal_spurious", fmt.Sprintf("%s: the last data frame is terminal although the consumer never saw EOF (reads: %d, last err %v)", who, len(m.reads), lastErr(m.reads)))
+	}
+	return nh, nd
+}
+
+// checkWrapper: reading through the logging wrapper returns the same bytes and errors as the underlying body.
+func checkWrapper(m *msgObs, who string, add violSink) {
+	if m.runaway {
+		add("wrapper_never_ends", fmt.Sprintf("%s: %d reads of a %d-byte body through the wrapper never returned an error", who, m.nreads, m.spec.Body.Size))
+	}
+	if m.spec.Body.Nil || m.spec.Body.Real && m.spec.Body.NoBody {
+		// there is no recorder underneath: the body is empty, every read must report (0, io.EOF), Close nil
+		for i, r := range m.reads {
+			if r.N != 0 || r.Err != io.EOF {
+				add("wrapper_result_mismatch", fmt.Sprintf("%s: read #%d of an empty body (nil / http.NoBody) returned (%d, %v)", who, i, r.N, r.Err))
+				break
+			}
+		}
+		if m.closed && m.closeErr != nil {
+			add("wrapper_close_mismatch", fmt.Sprintf("%s: Close of an empty body (nil / http.NoBody) returned %v", who, m.closeErr))
+		}
+		return
+	}
 	u := m.under
 	if len(u.calls) != len(m.reads) {
 		add("wrapper_call_count", fmt.Sprintf("%s: consumer made %d reads, underlying body saw %d", who, len(m.reads), len(u.calls)))
@@ -748,36 +997,6 @@ func checkMessage(m *msgObs, fs []frame, add violSink) (nh, nd int) {
 			add("wrapper_close_mismatch", fmt.Sprintf("%s: Close returned %v and closed the underlying body %d time(s); want %v and once", who, m.closeErr, u.closes, want))
 		}
 	}
-	// ---- data frames ----
-	nd = len(data)
-	var cat []byte
-	for i, f := range data {
-		if f.Index != uint32(i) {
-			add("data_index_not_contiguous", fmt.Sprintf("%s: data frame #%d in stream order carries index %d (indices: %v)", who, i, f.Index, indices(data)))
-			break
-		}
-	}
-	for i, f := range data {
-		cat = append(cat, f.Data...)
-		if f.Term > 1 {
-			add("terminal_byte_invalid", fmt.Sprintf("%s: data frame %d has terminal byte %d", who, i, f.Term))
-		}
-		if f.Term == 1 && i != len(data)-1 {
-			add("terminal_not_last", fmt.Sprintf("%s: data frame %d of %d is marked terminal", who, i, len(data)))
-			break
-		}
-	}
-	if !bytes.Equal(cat, m.got) {
-		add("data_bytes_mismatch", fmt.Sprintf("%s: data frames concatenate to %d bytes, the consumer read %d bytes (first difference at %d; %d frames, %d reads)", who, len(cat), len(m.got), firstDiff(cat, m.got), len(data), len(m.reads)))
-	}
-	lastTerm := len(data) > 0 && data[len(data)-1].Term == 1
-	if m.sawEOF && !lastTerm {
-		add("terminal_missing", fmt.Sprintf("%s: the body reached EOF but the last of %d data frame(s) is not terminal", who, len(data)))
-	}
-	if !m.sawEOF && lastTerm {
-		add("terminal_spurious", fmt.Sprintf("%s: the last data frame is terminal although the consumer never saw EOF (reads: %d, last err %v)", who, len(m.reads), lastErr(m.reads)))
-	}
-	return nh, nd
 }
 
 func lastErr(r []readRec) error {
@@ -913,7 +1132,7 @@ func rtCases(tier string) []rtCase {
 	for kind := 0; kind < 2; kind++ {
 		for via := 0; via < 3; via++ { // 0: stream with an 8-byte id, 1: stream with a 16-byte id, 2: modifier
 			for _, api := range []bool{false, true} {
-				for h := range hdrVariants {
+				for h := 0; h < nBaseHdr; h++ {
 					for _, l := range lites {
 						m := msgSpec{Kind: kind, API: api, Hdr: h, Body: l.B, Cons: l.C}
 						c := rtCase{Space: "A"}
@@ -976,7 +1195,7 @@ func rtCases(tier string) []rtCase {
 			}
 		}
 	}
-	return out
+	return append(out, auditCases(tier)...)
 }
 
 func (c rtCase) weight() int64 {
@@ -990,23 +1209,42 @@ func (c rtCase) weight() int64 {
 		for _, b := range m.Cons.Bufs {
 			sum += b
 		}
+		if m.Body.Chunk > 0 && sum > m.Body.Chunk*len(m.Cons.Bufs) {
+			sum = m.Body.Chunk * len(m.Cons.Bufs)
+		}
+		if sum == 0 {
+			sum = 1
+		}
 		reads := int64(limit*len(m.Cons.Bufs)/sum) + 2
 		if m.Cons.CloseAfter >= 0 && int64(m.Cons.CloseAfter) < reads {
 			reads = int64(m.Cons.CloseAfter)
 		}
 		w += reads*3 + int64(limit/2000)
+		if m.Hdr >= hdrBig && m.Hdr <= hdrHuge {
+			w += 2000
+		}
+	}
+	if len(c.Subs) > 0 {
+		// the handler starts a goroutine per frame and subscriber, and the scheduler's cost per point grows with the
+		// number of threads it has seen: quadratic in the number of frames
+		k := int64(len(c.Subs))
+		w = w*(2+k) + (w/3)*(w/3)*k*k/160
 	}
 	return w
 }
 
 // assign distributes items over n bins by decreasing weight (deterministic, identical in every shard).
-func assign(weights []int64, n int) []int {
+func assign(weights []int64, n int) []int { return assignFrom(weights, n, nil) }
+
+// assignFrom is assign with bins that already carry a load.
+func assignFrom(weights []int64, n int, initial []int64) []int {
 	idx := make([]int, len(weights))
 	for i := range idx {
 		idx[i] = i
 	}
 	sort.SliceStable(idx, func(a, b int) bool { return weights[idx[a]] > weights[idx[b]] })
 	load := make([]int64, n)
+	copy(load, initial)
 	bin := make([]int, len(weights))
 	for _, i := range idx {
 		best := 0
@@ -1094,31 +1332,58 @@ func outcomeDesc(r *vrt.Result) string {
 	return s
 }
 
-func roundTripPart(out *shardOut, cases []rtCase, shard, nshards int) {
+// concUnit: one execution of a concurrent scenario costs about as much as this many round-trip weight units
+// (measured; only used to balance the shards, which run their share of part 2 and then their share of part 1).
+const concUnit = 150
+
+func roundTripPart(out *shardOut, cases []rtCase, scen []concScenario, shard, nshards int) {
 	weights := make([]int64, len(cases))
 	for i, c := range cases {
 		weights[i] = c.weight()
 	}
-	bin := assign(weights, nshards)
+	initial := make([]int64, nshards)
+	if os.Getenv("C19_SKIP_CONC") == "" {
+		cw := make([]int64, len(scen))
+		for i, sc := range scen {
+			cw[i] = sc.Weight
+		}
+		for i, b := range assign(cw, nshards) {
+			initial[b] += cw[i] * concUnit
+		}
+	}
+	bin := assignFrom(weights, nshards, initial)
 	states := map[string]bool{}
 	for i, c := range cases {
 		if bin[i] != shard {
 			continue
 		}
+		tc := time.Now()
+		roundTripCase(out, i, c, states)
+		out.Counters["rt_ms_space_"+c.Space] += time.Since(tc).Milliseconds()
+		out.Counters["rt_weight_space_"+c.Space] += weights[i]
+	}
+	for k := range states {
+		out.States = append(out.States, "rt:"+k)
+	}
+}
+
+func roundTripCase(out *shardOut, i int, c rtCase, states map[string]bool) {
+	{
 		r, obs := runRT(c)
 		out.Counters["rt_cases"]++
 		out.Counters["rt_cases_space_"+c.Space]++
 		out.Counters["rt_points"] += int64(r.Points)
 		replay := map[string]interface{}{"part": "roundtrip", "case": c}
 		cj, _ := json.Marshal(c)
+		class := sigClass(c)
 		add := func(sym, desc string) {
-			out.violate("roundtrip:"+sym, fmt.Sprintf("case %s: %s", cj, desc), replay)
+			out.violate(class+":"+sym, fmt.Sprintf("case %s: %s", cj, desc), replay)
 		}
 		if r.Outcome != "ok" || !obs.finished {
 			add(outcomeSym(r), outcomeDesc(r))
-			continue
+			return
 		}
-		nf, keys, multi := checkObservation(obs, add)
+		nf, keys, multi := checkCase(c, obs, add)
 		out.Counters["rt_frames"] += int64(nf)
 		out.Counters["rt_writes"] += int64(len(obs.rec.writes))
 		for _, m := range obs.msgs {
@@ -1129,13 +1394,17 @@ func roundTripPart(out *shardOut, cases []rtCase, shard, nshards int) {
 		}
 		for _, k := range keys {
 			states[k] = true
+			if strings.HasPrefix(k, "sub/stall=true") {
+				if strings.Contains(k, "complete=true") {
+					out.Counters["handler_stalled_subscribers_that_got_everything"]++
+				} else {
+					out.Counters["handler_stalled_subscribers_cut_off_and_disconnected"]++
+				}
+			}
 		}
 		if (i%997 == 0 || c.Space == "C" && i%29 == 0) && len(out.Samples) < 3 {
 			out.Samples = append(out.Samples, map[string]interface{}{"part": "roundtrip", "case": c, "frames": nf, "state": keys})
 		}
-	}
-	for k := range states {
-		out.States = append(out.States, "rt:"+k)
 	}
 }
 
@@ -1150,6 +1419,7 @@ type concScenario struct {
 	WritePoint  bool      `json:"write_point"`
 	Bound       int       `json:"bound"`
 	Weight      int64     `json:"-"`
+	Subs        []subSpec `json:"subs,omitempty"` // audit: the writer is a tee into a marbl.Handler with these subscribers
 }
 
 // readsBody returns a body/consumer pair whose consumption takes exactly r reads with a 1-byte buffer.
@@ -1193,6 +1463,9 @@ func concScenarios(tier string) []concScenario {
 	// 32 KiB buffer, a 64 KiB buffer): one data frame carries tens of kilobytes and must still reach the
 	// writer as one whole frame while the other thread's frames are queued on the same channel.
 	big := func(size, buf int, bound int, weight int64) {
+		if v, err := strconv.Atoi(os.Getenv("C19_F4_BOUND")); err == nil { // calibration aid
+			bound = v
+		}
 		var ms []msgSpec
 		for i := 0; i < 2; i++ {
 			ms = append(ms, msgSpec{Kind: i, Hdr: 0, ID: "exch-big", Body: bodySpec{Size: size, ErrAt: -1}, Cons: consSpec{Bufs: []int{buf}, CloseAfter: -1}})
@@ -1200,15 +1473,35 @@ func concScenarios(tier string) []concScenario {
 		out = append(out, concScenario{Name: fmt.Sprintf("F4 body=%d read_buffer=%d log_in_thread=false writer_point=false bound=%d", size, buf, bound),
 			Msgs: ms, LogInThread: false, WritePoint: false, Bound: bound, Weight: weight})
 	}
+	// F5 (audit): the stream writes into a marbl.Handler; one websocket subscriber connects (or its connection
+	// breaks) while a thread logs a message and reads its body.
+	sub := func(what string, reads int, s subSpec, bound int, weight int64) {
+		b, c := readsBody(reads)
+		out = append(out, concScenario{Name: fmt.Sprintf("F5 %s reads=%d log_in_thread=true writer_point=false bound=%d", what, reads, bound),
+			Msgs: []msgSpec{{Kind: 0, Hdr: hdrSmall0, ID: "exch-sub", Body: b, Cons: c}}, LogInThread: true, Bound: bound, Weight: weight, Subs: []subSpec{s}})
+	}
+	if os.Getenv("C19_CALIBRATE") == "" {
+		if tier != "thorough" {
+			sub("subscriber connects late", 1, subSpec{Late: true}, 2, 3600)
+			sub("connection breaks at message 3", 1, subSpec{FailAfter: 3}, 2, 900)
+		} else {
+			sub("subscriber connects late", 2, subSpec{Late: true}, 3, 206000)
+			sub("connection breaks at message 3", 2, subSpec{FailAfter: 3}, 3, 15000)
+			sub("late subscriber whose connection breaks at message 2", 1, subSpec{Late: true, FailAfter: 2}, 3, 54000)
+		}
+	}
 	if os.Getenv("C19_CALIBRATE") == "" {
 		if tier != "thorough" {
 			big(40000, 65536, 4, 3000)
 			big(70000, 32768, 3, 6000)
 		} else {
-			big(32750, 65536, -1, 30000)
-			big(40000, 65536, -1, 30000)
-			big(70000, 32768, 5, 200000)
-			big(140000, 65536, 5, 200000)
+			// (audit: the first version asked for every interleaving of the two-read scenarios and 5 deviations of
+			// the four-read ones, which never finished within the thorough deadline — more than 688 000 and 530 000
+			// executions; the bounds below are the largest that complete: 100 946 and 67 524 executions)
+			big(32750, 65536, 6, 101000)
+			big(40000, 65536, 6, 101000)
+			big(70000, 32768, 4, 70000)
+			big(140000, 65536, 4, 110000)
 		}
 	}
 	if os.Getenv("C19_CALIBRATE") != "" {
@@ -1252,7 +1545,7 @@ func concScenarios(tier string) []concScenario {
 	}
 	add("F1", []int{2, 1}, 1, false, false, -1, 31500)
 	add("F1", []int{2, 1}, 1, false, true, -1, 353000)
-	add("F1", []int{2, 2}, 1, false, false, -1, 724000)
+	add("F1", []int{2, 2}, 1, false, false, 8, 724000) // bound 8: unbounded it has 2.17M interleavings since senders select on the stream having stopped
 	add("F1", []int{2, 2}, 1, false, true, 6, 188000)
 	add("F1", []int{3, 3}, 1, false, false, 5, 108000)
 	add("F1", []int{3, 3}, 1, false, true, 5, 326000)
@@ -1274,6 +1567,11 @@ func execConc(sc concScenario, obs *observation) {
 	vtime.SetBase(baseTime)
 	rec := &recWriter{point: sc.WritePoint}
 	obs.rec = rec
+	var handler *marbl.Handler
+	if len(sc.Subs) > 0 {
+		handler = connectSubscribers(sc.Subs, obs)
+		rec.next = handler
+	}
 	st := marbl.NewStream(rec)
 	var removes []func()
 	for i, sp := range sc.Msgs {
@@ -1298,11 +1596,19 @@ func execConc(sc concScenario, obs *observation) {
 			}
 		}))
 	}
+	for _, c := range obs.subs {
+		if c.spec.Late { // connects while the messages are being logged
+			startSubscriber(handler, c)
+		}
+	}
 	for _, t := range ths {
 		vrt.Join(t)
 	}
 	st.Close()
 	obs.closed = true
+	if len(obs.subs) > 0 {
+		releaseSubscribers(obs)
+	}
 	for _, r := range removes {
 		r()
 	}
@@ -1326,6 +1632,15 @@ func execConc(sc concScenario, obs *observation) {
 		} else {
 			fmt.Fprintf(&sb, "%sD%d ", lbl, f.Index)
 		}
+	}
+	for i, c := range obs.subs {
+		hs := bytes.Index(c.out, []byte("\r\n\r\n"))
+		n := -1
+		if hs >= 0 {
+			msgs, _, _ := wsMessages(c.out[hs+4:])
+			n = len(msgs)
+		}
+		fmt.Fprintf(&sb, "| sub%d got %d closed=%v ", i, n, c.closed)
 	}
 	vrt.Log("%s", sb.String())
 }
@@ -1438,6 +1753,9 @@ func concPart(out *shardOut, scen []concScenario, shard, nshards int, deadline t
 		if bin[si] != shard {
 			continue
 		}
+		if f := os.Getenv("C19_ONLY_SCEN"); f != "" && !strings.Contains(sc.Name, f) { // development aid
+			continue
+		}
 		sc := sc
 		var obs *observation
 		body := func() {
@@ -1457,6 +1775,12 @@ func concPart(out *shardOut, scen []concScenario, shard, nshards int, deadline t
 				return nviol < 20
 			}
 			nf, keys, _ := checkObservation(obs, add)
+			if len(obs.subs) > 0 {
+				keys = append(keys, checkSubscribers(obs, func(sym, desc string) {
+					nviol++
+					out.violate("conc_handler:"+sym, fmt.Sprintf("scenario %q schedule %v: %s (wire order: %v)", sc.Name, r.ChoiceSeq(), desc, r.Log), replay)
+				})...)
+			}
 			out.Counters["conc_frames"] += int64(nf)
 			for _, k := range keys {
 				states[k] = true
@@ -1497,6 +1821,10 @@ type rdCase struct {
 	Class string
 	Input []byte
 	Note  string
+	// audit: the input is srcBase[:Cut] delivered by source Mode
+	Base bool
+	Cut  int
+	Mode string
 }
 
 var lenSet = []uint32{0, 1, 2, 1<<31 - 1, 1 << 31, 1<<32 - 2, 1<<32 - 1}
@@ -1636,7 +1964,7 @@ func runReaderCase(c rdCase) (res rdResult) {
 		rest = rest[n:]
 	}
 	before := heapAllocs()
-	got, last, pan, both := readAllFrames(c.Input, len(want)+3)
+	got, last, pan, both := readAllFramesFrom(sourceFor(c.Mode, c.Input), len(want)+3)
 	res.Alloc = heapAllocs() - before
 	res.Frames = len(got)
 	if last != nil {
@@ -1690,12 +2018,22 @@ func readerWorker() {
 	sc := bufio.NewScanner(os.Stdin)
 	sc.Buffer(make([]byte, 1<<16), 1<<16)
 	for sc.Scan() {
-		parts := strings.SplitN(sc.Text(), " ", 2)
-		in, err := hex.DecodeString(parts[1])
-		if err != nil {
-			os.Exit(3)
+		parts := strings.SplitN(sc.Text(), " ", 3)
+		var in []byte
+		mode := ""
+		if strings.HasPrefix(parts[1], "@") { // "@<cut> <mode>": srcBase[:cut] delivered by a source of that kind
+			cut, err := strconv.Atoi(parts[1][1:])
+			if err != nil || cut > len(srcBase) || len(parts) < 3 {
+				os.Exit(3)
+			}
+			in, mode = srcBase[:cut], parts[2]
+		} else {
+			var err error
+			if in, err = hex.DecodeString(parts[1]); err != nil {
+				os.Exit(3)
+			}
 		}
-		res := runReaderCase(rdCase{Input: in})
+		res := runReaderCase(rdCase{Input: in, Mode: mode})
 		j, _ := json.Marshal(res)
 		fmt.Fprintf(bw, "R %s %s\n", parts[0], j)
 		bw.Flush()
@@ -1710,7 +2048,7 @@ type rdStats struct {
 }
 
 func readerPart(rep *lib.Report, tier string, nworkers int) rdStats {
-	cases := rdCases(tier)
+	cases := append(rdCases(tier), rdSourceCases(tier)...)
 	results := make([]*rdResult, len(cases))
 	var mu sync.Mutex
 	st := rdStats{classes: map[string]int64{}, states: map[string]bool{}}
@@ -1732,7 +2070,11 @@ func readerPart(rep *lib.Report, tier string, nworkers int) rdStats {
 				cmd.Stderr = &stderr
 				var input bytes.Buffer
 				for _, i := range mine {
-					fmt.Fprintf(&input, "%d %s\n", i, hex.EncodeToString(cases[i].Input))
+					if cases[i].Base {
+						fmt.Fprintf(&input, "%d @%d %s\n", i, cases[i].Cut, cases[i].Mode)
+					} else {
+						fmt.Fprintf(&input, "%d %s\n", i, hex.EncodeToString(cases[i].Input))
+					}
 				}
 				cmd.Stdin = &input
 				pipe, err := cmd.StdoutPipe()
@@ -1811,7 +2153,10 @@ func readerPart(rep *lib.Report, tier string, nworkers int) rdStats {
 			st.errored++
 		}
 		st.states["rd:"+c.Class+"/frames="+strconv.Itoa(r.Frames)+"/"+r.Sym+"/"+r.Errs] = true
-		if r.Sym != "" {
+		if r.Sym != "" && c.Base {
+			rep.Violate("reader:"+c.Class+":"+r.Sym, fmt.Sprintf("%s: %s", c.Note, r.Desc),
+				map[string]interface{}{"part": "reader", "base_cut": c.Cut, "mode": c.Mode, "note": c.Note})
+		} else if r.Sym != "" {
 			rep.Violate("reader:"+c.Class+":"+r.Sym, fmt.Sprintf("input %x (%s): %s", c.Input, c.Note, r.Desc),
 				map[string]interface{}{"part": "reader", "input_hex": hex.EncodeToString(c.Input), "note": c.Note})
 		}
@@ -1858,14 +2203,14 @@ func main() {
 			dl = time.Now().Add(time.Duration(v) * time.Second)
 		}
 		if tier == "thorough" {
-			dl = time.Now().Add(11 * time.Minute)
+			dl = time.Now().Add(9 * time.Minute)
 		}
 		if os.Getenv("C19_SKIP_CONC") == "" {
 			concPart(out, scen, i, n, dl)
 		}
 		t1 := time.Now()
 		if os.Getenv("C19_SKIP_RT") == "" {
-			roundTripPart(out, cases, i, n)
+			roundTripPart(out, cases, scen, i, n)
 		}
 		out.Counters["conc_ms_sum"] = t1.Sub(t0).Milliseconds()
 		out.Counters["rt_ms_sum"] = time.Since(t1).Milliseconds()
@@ -1941,9 +2286,9 @@ func main() {
 	rep.Coverage["evaluations"] = rep.Counter("rt_cases") + rep.Counter("conc_executions") + rd.cases
 	rep.Coverage["executions"] = rep.Counter("conc_executions")
 	rep.Coverage["distinct_nontrivial"] = rep.Counter("rt_cases_multi_data_frames") + rep.Counter("conc_distinct_wire_orders") + rd.huge
-	rep.Coverage["rule"] = "part 1: cartesian spaces A (96 message shapes x 14 body/consumer configs), B (4 shapes x full product of body size x EOF style x error offset x read-buffer sequence x early close x close error) and C (6 message pairs x 4x4 bodies) enumerated in full, non-trivial = the message produced >= 2 data frames; " +
+	rep.Coverage["rule"] = "part 1: cartesian spaces A (96 message shapes x 14 body/consumer configs), B (4 shapes x full product of body size x EOF style x error offset x read-buffer sequence x early close x close error) and C (6 message pairs x 4x4 bodies) enumerated in full, plus the audit spaces D (length and index fields beyond 16 bits), E (short / no-progress / transient-error bodies x zero-length buffers x consumers that read on after an error), N (http.NoBody itself, nil bodies), S (Modifier x SkipLogging), A2 (further message shapes), W (failing writer: call number x once/persistent x error/short write), X (Stream.Close after k consumer steps, logging after Close) and H (marbl.Handler behind the stream: subscriber sets x message pairs; a stalled subscriber around the 16384-frame buffer), non-trivial = the message produced >= 2 data frames; " +
 		"part 2: every interleaving (or every interleaving within the deviation bound) of each scenario, non-trivial = distinct orders of frames on the wire; " +
-		"part 3: frame grammar x length set x every truncation offset x 3 prefixes + all short strings, non-trivial = a length field (or their sum) >= 2^31-1"
+		"part 3: frame grammar x length set x every truncation offset x 3 prefixes + all short strings + a 13 KB stream whose frames straddle bufio's 4096-byte buffer x truncation offsets x 5 kinds of source (bytes.Reader, one byte per Read, data together with EOF, half reads, a non-EOF error), non-trivial = a length field (or their sum) >= 2^31-1"
 	rep.Coverage["exhaustive"] = rep.Incomplete == ""
 	var scenNames []string
 	for _, sc := range scen {
@@ -1955,7 +2300,8 @@ func main() {
 		"every logged request (and every response's request) has a martian context, as in the proxy and in marbl's own tests; LogRequest/LogResponse dereference it",
 		"the wire id of a message is the first 8 bytes of the id handed to the stream (the frame format has an 8-byte id field; the Modifier passes 16-character context ids); ids shorter than 8 bytes and distinct ids sharing an 8-byte prefix are outside the enumerated space",
 		"the pseudo-header vocabulary is marbl's (:method :scheme :authority :path :query :proto :remote :timestamp [:api] / :proto :status :reason :timestamp [:api]); :reason carries Response.Status; Content-Length: 0 may or may not be logged",
-		"bodies are non-nil (http.NoBody or a reader); one consumer per body; the consumer stops reading at the first error; the writer never fails",
+		"one consumer per body (no concurrent Reads of one body); a failing writer is judged on liveness, wrapper transparency and whole accepted frames only (what a lossy writer drops is not the stream's fault); after Stream.Close the log is a prefix",
+		"marbl.Handler is driven through its public ServeHTTP with hijacked in-memory connections (x/net/websocket runs unmodified on them); a subscriber is 'there from the start' once its handler goroutine waits for frames; only one subscriber in explored (part 2) scenarios because subscriber ids are random and several of them would make thread numbering irreproducible",
 		"gosim: scheduling points are channel operations, atomics, locks and (where stated) the writer's Write; map iteration in rewritten martian code is in sorted key order; virtual clock",
 		"part 3 runs the unmodified reader code natively (it has no concurrency); an attempt to allocate > 1 GiB is detected by an address-space cap on the worker process" + map[bool]string{true: " (cap could not be installed in this run: detection falls back to measured allocation > 64 MiB)", false: ""}[rd.uncapped],
 	}
@@ -2007,6 +2353,8 @@ func replay(path string) {
 				Scenario concScenario
 				Schedule []int
 				InputHex string `json:"input_hex"`
+				BaseCut  *int   `json:"base_cut"`
+				Mode     string `json:"mode"`
 			}
 		}
 	}
@@ -2016,9 +2364,13 @@ func replay(path string) {
 	}
 	r := rp.First.Replay
 	found := 0
+	class := r.Part
+	if r.Part == "roundtrip" {
+		class = sigClass(r.Case)
+	}
 	add := func(sym, desc string) {
 		found++
-		fmt.Printf("  %s:%s: %s\n", r.Part, sym, desc)
+		fmt.Printf("  %s:%s: %s\n", class, sym, desc)
 	}
 	fmt.Printf("replaying %s (%s)\n", rp.Sig, r.Part)
 	switch r.Part {
@@ -2027,7 +2379,7 @@ func replay(path string) {
 		if res.Outcome != "ok" || !obs.finished {
 			add(outcomeSym(res), outcomeDesc(res))
 		} else {
-			checkObservation(obs, add)
+			checkCase(r.Case, obs, add)
 		}
 	case "conc":
 		obs := &observation{}
@@ -2040,11 +2392,17 @@ func replay(path string) {
 			add(outcomeSym(res), outcomeDesc(res))
 		} else {
 			checkObservation(obs, add)
+			if len(obs.subs) > 0 {
+				checkSubscribers(obs, add)
+			}
 		}
 	case "reader":
 		in, _ := hex.DecodeString(r.InputHex)
+		if r.BaseCut != nil {
+			in = srcBase[:*r.BaseCut]
+		}
 		capAddressSpace()
-		res := runReaderCase(rdCase{Input: in})
+		res := runReaderCase(rdCase{Input: in, Mode: r.Mode})
 		if res.Sym != "" {
 			add(res.Sym, res.Desc)
 		}
